@@ -1018,11 +1018,38 @@ func (g *qgen) rfChain(schema []qcol, n int) ([]string, []qcol) {
 			env := append([]qcol(nil), schema...)
 			var sel []qcol
 			parts := []string{"select"}
+			// shadowing (R2, fix 5caebc0): entry `shadow` re-uses the urn of an existing field, so the later entries are
+			// planned over a field list that holds that urn twice; the entry after it is often a reduce over that urn
+			// (alone, or together with an unknown urn) — the count-based "missing" check got both wrong
+			shadow, shadowCol := -1, qcol{}
+			if !dupl && g.r.Intn(4) == 0 {
+				if k < 2 {
+					k = 2
+				}
+				shadow, shadowCol = g.r.Intn(k-1), schema[g.r.Intn(len(schema))]
+			}
 			for j := 0; j < k; j++ {
 				v, t := g.val(env, g.prefDt(env), 0, nil, g.depth())
 				urn, ou := g.fresh(), g.ounit()
 				if dupl && j == k-1 {
 					urn = sel[0].urn
+				}
+				if j == shadow {
+					urn = shadowCol.urn
+					if g.r.Bool() {
+						v, t = qT("ref", qQ(shadowCol.urn)), qvt{shadowCol.dt, shadowCol.req, shadowCol.unit}
+					}
+				}
+				if shadow >= 0 && j == shadow+1 && g.r.Intn(3) > 0 {
+					urns := []string{qQ(shadowCol.urn)}
+					if g.r.Intn(3) == 0 {
+						urns = append(urns, "'zz")
+					}
+					rt, rdt := g.pick([]string{"sum", "max", "count"}), shadowCol.dt
+					if rt == "count" {
+						rdt = "int"
+					}
+					v, t = qT(append([]string{"reduce", rt}, urns...)...), qvt{rdt, true, shadowCol.unit}
 				}
 				if ou != "" {
 					t.unit = ou
